@@ -98,7 +98,8 @@ impl Sim {
             next_index_sent: 0,
             end_sent: false,
             sent: Vec::new(),
-            next_index_accepted: 0,
+            last_index_accepted: None,
+            delivered_indexes: BTreeSet::new(),
             missing_at_open: missing,
             delivered_new: 0,
             b_committed_at_open: if self.crashed[b] { 0 } else { self.committed(b).len() },
@@ -300,6 +301,11 @@ impl Sim {
             return;
         }
         let mirror = wire_mirror::decode_response(&msg.bytes).map(|(m, _)| m);
+        if let Some(ResponseMsg::SyncResponse { session_id, response_index, .. }) = &mirror {
+            if *session_id == self.sess[s].sid {
+                self.sess[s].delivered_indexes.insert(*response_index);
+            }
+        }
         let mut requester = std::mem::replace(&mut self.sess[s].requester, SyncRequester::new_session_id(self.gid.expect("gid"), 0));
         let r = guarded(|| match requester.receive(&msg.bytes) {
             Ok(Some(cmds)) => {
@@ -339,19 +345,23 @@ impl Sim {
         if !in_bounds {
             self.violation("C18", "C18.out-of-bounds", "command-slice-out-of-bounds", format!("session {s}: a command payload slice lies outside the received buffer"));
         }
-        // C18: only own session, next index (checked against what the responder really sent).
-        if let Some(m) = &mirror {
-            match m {
-                ResponseMsg::SyncResponse { session_id, response_index, .. } if cmds.is_some() => {
-                    if *session_id != self.sess[s].sid {
-                        self.violation("C18", "C18.foreign-session", "foreign-session-accepted", format!("session {s}: accepted a response for session {session_id:x}"));
-                    }
-                    if *response_index != self.sess[s].next_index_accepted {
-                        self.violation("C18", "C18.out-of-sequence", "out-of-sequence-accepted", format!("session {s}: accepted response index {response_index}, next expected {}", self.sess[s].next_index_accepted));
-                    }
-                    self.sess[s].next_index_accepted = response_index + 1;
+        // C18: only own session, and in sequence. "In sequence" is stated over what was delivered,
+        // not over the requester's private counter: an accepted response index must be greater
+        // than every index accepted before (no replay, no going back) and every smaller index
+        // must already have been delivered to this requester (no skipping ahead of a response
+        // that has not arrived). A response that arrived damaged still counts as delivered.
+        if let Some(ResponseMsg::SyncResponse { session_id, response_index, .. }) = &mirror {
+            if cmds.is_some() {
+                if *session_id != self.sess[s].sid {
+                    self.violation("C18", "C18.foreign-session", "foreign-session-accepted", format!("session {s}: accepted a response for session {session_id:x}"));
                 }
-                _ => {}
+                let k = *response_index;
+                if self.sess[s].last_index_accepted.is_some_and(|l| k <= l) {
+                    self.violation("C18", "C18.out-of-sequence", "out-of-sequence-accepted", format!("session {s}: accepted response index {k} after index {:?} had been accepted", self.sess[s].last_index_accepted));
+                } else if let Some(gap) = (0..k).find(|j| !self.sess[s].delivered_indexes.contains(j)) {
+                    self.violation("C18", "C18.out-of-sequence", "out-of-sequence-accepted", format!("session {s}: accepted response index {k} although index {gap} was never delivered"));
+                }
+                self.sess[s].last_index_accepted = Some(k);
             }
         }
         match cmds {
